@@ -31,6 +31,8 @@ where
         let mut data = self.data.lock();
         data.push(item);
         if data.len() >= self.capa {
+            #[cfg(transparencies_stretto_verif)]
+            crate::verif::sched::point("ring:before_push");
             match self.cons.push(data.clone()) {
                 Ok(true) => *data = Vec::with_capacity(self.capa),
                 _ => data.clear(),
@@ -72,6 +74,8 @@ where
             }
         };
 
+        #[cfg(transparencies_stretto_verif)]
+        crate::verif::sched::point("ring:before_push");
         _ = self.cons.push(data).await;
     }
 }
